@@ -4,6 +4,7 @@ import RubyTi.Model.Token
 import RubyTi.Model.Config
 import RubyTi.Model.Args
 import RubyTi.Model.Sig
+import RubyTi.Model.Rbs
 
 /-! Line-protocol driver over the executable model definitions (core-only, built as `lean_exe`).
 One op per input line, one answer line per op; the answer format is the one
@@ -156,6 +157,29 @@ def opSortSig (args : String) : String :=
         (if s.isStatic then "1" else "0"), String.ofList s.fileName, toString s.row])
   | _ => "BAD-ARGS"
 
+def rbsParam (s : String) : Rbs.Param :=
+  if s == "_" then none else some (((s.splitOn ",").filter (· != "")).map String.toList)
+
+def rbsList (s : String) : List Rbs.Param := ((s.splitOn ";").filter (· != "")).map rbsParam
+
+def rbsKw (s : String) : List (Str × Rbs.Param) :=
+  ((s.splitOn ";").filter (· != "")).map fun e =>
+    match e.splitOn ":" with
+    | [n, t] => (n.toList, rbsParam t)
+    | _ => ([], none)
+
+/-- rbsargs R=..|O=..|S=..|T=..|RK=..|OK=.. -/
+def opRbsArgs (args : String) : String :=
+  let get (k : String) : String :=
+    match ((args.splitOn "|").filter (·.startsWith (k ++ "="))).head? with
+    | some f => (f.drop (k.length + 1)).toString
+    | none => ""
+  let rest : Option Rbs.Param := if get "S" == "-" || get "S" == "" then none else some (rbsParam (get "S"))
+  let f : Rbs.FuncType := { required := rbsList (get "R"), optional := rbsList (get "O"), rest := rest,
+                            trailing := rbsList (get "T"), requiredKw := rbsKw (get "RK"), optionalKw := rbsKw (get "OK") }
+  " ; ".intercalate ((Rbs.convertArguments f).map fun a =>
+    ",".intercalate (a.type.map String.ofList) ++ "~" ++ String.ofList a.key ++ "~" ++ (if a.isAsterisk then "1" else "0") ++ "~" ++ (if a.isDefault then "1" else "0"))
+
 def dispatch (line : String) : String :=
   if line.isEmpty then "" else
   let name := (line.splitOn " ").headD ""
@@ -169,6 +193,7 @@ def dispatch (line : String) : String :=
   else if name == "builtin" then opBuiltin args
   else if name == "prio" then opPrio args
   else if name == "sortsig" then opSortSig args
+  else if name == "rbsargs" then opRbsArgs args
   else if name == "pdef" then opPDef args
   else "BAD-OP " ++ name
 
